@@ -43,6 +43,11 @@ def scratch_copy():
     return d, dst
 
 
+def ensure_generated(tree):
+    """Some demonstrations compile src/base64u.c, which the repository generates during its build."""
+    sh("make -s -C src base64u.c base64u.h", cwd=tree)
+
+
 def suite_ok(tree):
     rc, out = sh("make -s 2>&1 && make -s test 2>&1", cwd=tree)
     m = re.search(r"100%: Checks: (\d+), Failures: 0, Errors: 0", out)
@@ -79,6 +84,7 @@ def cmd_import(src, name, checks, tier):
     try:
         demo = os.path.join(src, "demo.sh")
         os.chmod(demo, 0o755)
+        ensure_generated(tree)
         rc, out = sh([demo, tree], cwd=src, timeout=600)
         val["demo_clean_rc"] = rc
         val["demo_clean_tail"] = out[-300:]
@@ -91,6 +97,7 @@ def cmd_import(src, name, checks, tier):
         val["suite_passes_with_patch"] = ok
         if not ok:
             val["suite_tail"] = tail
+        ensure_generated(tree)
         rc, out = sh([demo, tree], cwd=src, timeout=600)
         val["demo_patched_rc"] = rc
         val["demo_patched_tail"] = out[-400:]
